@@ -635,4 +635,547 @@ theorem WFE.finish {t : T} (h : WFE t) :
       exact ⟨h.toWFA (fun hl => by omega), fun _ => Iff.rfl⟩
     · exact h.drop_empty_last h0 he
 
+namespace WFA
+variable {t : T}
+
+
+/-- removing index `k` (the entry with `id`) from the last partition -/
+theorem removeFromLast_core (h : WFA t) {id k : Nat} (hk : findIdx (t.P t.L) id = some k) :
+    WFE (t.setP t.L (swapRemove (t.P t.L) k)) ∧
+    ∀ y, (t.setP t.L (swapRemove (t.P t.L) k)).Mem y ↔ t.Mem y ∧ y.id ≠ id := by
+  obtain ⟨hkl, hkid⟩ := findIdx_some hk
+  have hnd := h.nodup t.L (Nat.le_refl _)
+  have hmem := mem_swapRemove hkl hkid hnd
+  have hlen := length_swapRemove (t.P t.L) k hkl
+  constructor
+  · constructor
+    · exact h.size_pos
+    · intro i hi
+      simp only [T.setP, upd_apply] at hi ⊢
+      simp only [show i ≠ t.L by omega, if_false]
+      exact h.full i hi
+    · simp only [T.setP, upd_apply, if_true]
+      have := h.last_le
+      omega
+    · intro i hi
+      simp only [T.setP, upd_apply] at hi ⊢
+      split
+      · exact nodup_swapRemove hkl hnd
+      · exact h.nodup i hi
+    · intro i j hi hj x hx y hy hid
+      simp only [T.setP, upd_apply] at hi hj hx hy
+      have := h.disj i j hi hj
+      grind
+    · intro a i hloc
+      simp only [T.setP, upd_apply] at hloc ⊢
+      obtain ⟨hlt, x, hx, hxa⟩ := h.loc_sound a i hloc
+      exact ⟨hlt, x, by simp only [show i ≠ t.L by omega, if_false]; exact hx, hxa⟩
+    · intro i hi x hx
+      simp only [T.setP, upd_apply] at hi hx ⊢
+      simp only [show i ≠ t.L by omega, if_false] at hx
+      exact h.loc_complete i hi x hx
+  · intro y
+    simp only [T.Mem, T.setP, upd_apply]
+    have hx0 : (t.P t.L)[k] ∈ t.P t.L := List.getElem_mem hkl
+    constructor
+    · rintro ⟨i, hi, hy⟩
+      by_cases hil : i = t.L
+      · simp only [hil, if_true] at hy
+        exact ⟨⟨t.L, Nat.le_refl _, ((hmem y).mp hy).1⟩, ((hmem y).mp hy).2⟩
+      · simp only [hil, if_false] at hy
+        refine ⟨⟨i, hi, hy⟩, fun hid => hil ?_⟩
+        exact h.disj i t.L hi (Nat.le_refl _) y hy _ hx0 (by rw [hid, hkid])
+    · rintro ⟨⟨i, hi, hy⟩, hne⟩
+      refine ⟨i, hi, ?_⟩
+      by_cases hil : i = t.L
+      · simp only [hil, if_true]; rw [hil] at hy; exact (hmem y).mpr ⟨hy, hne⟩
+      · simp only [hil, if_false]; exact hy
+
+end WFA
+
+namespace WFA
+variable {t : T}
+
+
+theorem removeItem_core (h : WFA t) {id i k : Nat} {tl : Item} (hi : i < t.L)
+    (hk : findIdx (t.P i) id = some k) (htl : (t.P t.L).getLast? = some tl)
+    (hnl : findItem (t.P t.L) id = none) :
+    WFE (((((t.setP i (swapRemove (t.P i) k)).setP t.L (t.P t.L).dropLast).setP i
+            (swapRemove (t.P i) k ++ [tl])).setLoc tl.id i).delLoc id) ∧
+    ∀ y, (((((t.setP i (swapRemove (t.P i) k)).setP t.L (t.P t.L).dropLast).setP i
+            (swapRemove (t.P i) k ++ [tl])).setLoc tl.id i).delLoc id).Mem y ↔ t.Mem y ∧ y.id ≠ id := by
+  obtain ⟨hkl, hkid⟩ := findIdx_some hk
+  have hiL : i ≠ t.L := by omega
+  have hndA := h.nodup i (by omega)
+  have hndB := h.nodup t.L (Nat.le_refl _)
+  have hmA := mem_swapRemove hkl hkid hndA
+  have hlenA := length_swapRemove (t.P i) k hkl
+  have hndS := nodup_swapRemove hkl hndA
+  have hfull := h.full i hi
+  have hB := eq_dropLast_append htl
+  have hx0 : (t.P i)[k] ∈ t.P i := List.getElem_mem hkl
+  have htlB : tl ∈ t.P t.L := by rw [hB]; simp
+  have hmB : ∀ y, y ∈ t.P t.L ↔ y ∈ (t.P t.L).dropLast ∨ y = tl := by
+    intro y; conv => lhs; rw [hB]
+    simp
+  have hndB' : ((t.P t.L).dropLast.map (·.id)).Nodup ∧ ∀ y ∈ (t.P t.L).dropLast, y.id ≠ tl.id := by
+    rw [hB, List.map_append, List.nodup_append] at hndB
+    refine ⟨hndB.1, fun y hy hid => hndB.2.2 y.id (List.mem_map.mpr ⟨y, hy, rfl⟩) tl.id (by simp) hid⟩
+  have htlid : tl.id ≠ id := findItem_none.mp hnl tl htlB
+  have htlA : ∀ y ∈ t.P i, y.id ≠ tl.id := fun y hy hid =>
+    hiL (h.disj i t.L (by omega) (Nat.le_refl _) y hy tl htlB hid)
+  -- closed forms
+  have hP : ∀ j, (((((t.setP i (swapRemove (t.P i) k)).setP t.L (t.P t.L).dropLast).setP i
+            (swapRemove (t.P i) k ++ [tl])).setLoc tl.id i).delLoc id).P j =
+      if j = i then swapRemove (t.P i) k ++ [tl] else if j = t.L then (t.P t.L).dropLast else t.P j := by
+    intro j
+    simp only [T.setP, T.setLoc, T.delLoc, upd_apply]
+    grind
+  have hloc : ∀ a, (((((t.setP i (swapRemove (t.P i) k)).setP t.L (t.P t.L).dropLast).setP i
+            (swapRemove (t.P i) k ++ [tl])).setLoc tl.id i).delLoc id).loc a =
+      if a = id then none else if a = tl.id then some i else t.loc a := by
+    intro a
+    simp only [T.setP, T.setLoc, T.delLoc, upd_apply]
+  have hL6 : (((((t.setP i (swapRemove (t.P i) k)).setP t.L (t.P t.L).dropLast).setP i
+            (swapRemove (t.P i) k ++ [tl])).setLoc tl.id i).delLoc id).L = t.L := rfl
+  have hS6 : (((((t.setP i (swapRemove (t.P i) k)).setP t.L (t.P t.L).dropLast).setP i
+            (swapRemove (t.P i) k ++ [tl])).setLoc tl.id i).delLoc id).size = t.size := rfl
+  generalize ((((t.setP i (swapRemove (t.P i) k)).setP t.L (t.P t.L).dropLast).setP i
+            (swapRemove (t.P i) k ++ [tl])).setLoc tl.id i).delLoc id = t6 at hP hloc hL6 hS6 ⊢
+  have hsz := h.size_pos
+  have hlast := h.last_le
+  constructor
+  · constructor
+    · rw [hS6]; exact hsz
+    · intro j hj
+      rw [hL6] at hj
+      rw [hP, hS6]
+      have := h.full j hj
+      split
+      · simp; omega
+      · simp only [show j ≠ t.L by omega, if_false]; exact this
+    · rw [hL6, hP, hS6]
+      simp only [show t.L ≠ i by omega, if_false, if_true, List.length_dropLast]
+      omega
+    · intro j hj
+      rw [hL6] at hj
+      rw [hP]
+      split
+      · rw [List.map_append, List.nodup_append]
+        refine ⟨hndS, by simp, ?_⟩
+        intro a ha b hb
+        simp at hb; subst hb
+        obtain ⟨y, hy, rfl⟩ := List.mem_map.mp ha
+        exact htlA y ((hmA y).mp hy).1
+      · split
+        · exact hndB'.1
+        · exact h.nodup j hj
+    · have orig : ∀ j, j ≤ t.L → ∀ z, z ∈ t6.P j →
+          ∃ j', j' ≤ t.L ∧ z ∈ t.P j' ∧ (z ≠ tl → j' = j) ∧ (z = tl → j = i) := by
+        intro j hj z hz
+        rw [hP] at hz
+        split at hz
+        · simp at hz
+          rcases hz with hz | rfl
+          · exact ⟨i, by omega, ((hmA z).mp hz).1, fun _ => by omega, fun _ => by assumption⟩
+          · exact ⟨t.L, Nat.le_refl _, htlB, fun hne => absurd rfl hne, fun _ => by assumption⟩
+        · split at hz
+          · refine ⟨t.L, Nat.le_refl _, (hmB z).mpr (Or.inl hz), fun _ => by omega, fun heq => ?_⟩
+            exact absurd (by rw [heq]) (hndB'.2 z hz)
+          · refine ⟨j, hj, hz, fun _ => rfl, fun heq => ?_⟩
+            rw [heq] at hz
+            have := h.disj j t.L hj (Nat.le_refl _) tl hz tl htlB rfl
+            contradiction
+      intro j1 j2 hj1 hj2 x hx y hy hid
+      rw [hL6] at hj1 hj2
+      obtain ⟨a1, ha1, hxa, hx1, hx2⟩ := orig j1 hj1 x hx
+      obtain ⟨a2, ha2, hya, hy1, hy2⟩ := orig j2 hj2 y hy
+      have hxy : x = y := h.mem_unique ⟨a1, ha1, hxa⟩ ⟨a2, ha2, hya⟩ hid
+      subst hxy
+      have ha := h.disj a1 a2 ha1 ha2 x hxa x hya rfl
+      by_cases hxt : x = tl
+      · rw [hx2 hxt, hy2 hxt]
+      · rw [← hx1 hxt, ← hy1 hxt, ha]
+    · intro a j hl
+      rw [hloc] at hl
+      rw [hL6]
+      by_cases ha1 : a = id
+      · simp [ha1] at hl
+      · by_cases ha2 : a = tl.id
+        · simp only [ha2, htlid, if_false, if_true, Option.some.injEq] at hl
+          subst hl
+          exact ⟨hi, tl, by rw [hP]; simp, ha2.symm⟩
+        · simp only [ha1, ha2, if_false] at hl
+          obtain ⟨hlt, x, hx, hxa⟩ := h.loc_sound a j hl
+          refine ⟨hlt, x, ?_, hxa⟩
+          rw [hP]
+          split
+          · subst_vars; simp; exact Or.inl ((hmA x).mpr ⟨hx, by omega⟩)
+          · simp only [show j ≠ t.L by omega, if_false]; exact hx
+    · intro j hj x hx
+      rw [hL6] at hj
+      rw [hP] at hx
+      rw [hloc]
+      have hc := h.loc_complete j hj
+      split at hx
+      · subst_vars
+        simp at hx
+        rcases hx with hx | rfl
+        · have := (hmA x).mp hx
+          simp only [this.2, if_false, htlA x this.1]
+          exact h.loc_complete j hj x this.1
+        · simp [htlid]
+      · simp only [show j ≠ t.L by omega, if_false] at hx
+        have h1 : x.id ≠ id := fun hid => by
+          have := h.disj j i (by omega) (by omega) x hx _ hx0 (by rw [hid, hkid])
+          contradiction
+        have h2 : x.id ≠ tl.id := fun hid => by
+          have := h.disj j t.L (by omega) (Nat.le_refl _) x hx tl htlB hid
+          omega
+        simp only [h1, h2, if_false]
+        exact hc x hx
+  · intro y
+    simp only [T.Mem, hL6, hP]
+    constructor
+    · rintro ⟨j, hj, hy⟩
+      split at hy
+      · subst_vars
+        simp at hy
+        rcases hy with hy | rfl
+        · exact ⟨⟨j, hj, ((hmA y).mp hy).1⟩, ((hmA y).mp hy).2⟩
+        · exact ⟨⟨t.L, Nat.le_refl _, htlB⟩, htlid⟩
+      · split at hy
+        · subst_vars
+          have hyB := (hmB y).mpr (Or.inl hy)
+          exact ⟨⟨t.L, Nat.le_refl _, hyB⟩, findItem_none.mp hnl y hyB⟩
+        · refine ⟨⟨j, hj, hy⟩, fun hid => ?_⟩
+          have := h.disj j i hj (by omega) y hy _ hx0 (by rw [hid, hkid])
+          contradiction
+    · rintro ⟨⟨j, hj, hy⟩, hne⟩
+      by_cases hji : j = i
+      · subst hji
+        exact ⟨j, hj, by simp; exact Or.inl ((hmA y).mpr ⟨hy, hne⟩)⟩
+      · by_cases hjL : j = t.L
+        · rw [hjL] at hy
+          rcases (hmB y).mp hy with hy' | rfl
+          · exact ⟨t.L, Nat.le_refl _, by simp [show t.L ≠ i by omega]; exact hy'⟩
+          · exact ⟨i, by omega, by simp⟩
+        · exact ⟨j, hj, by simp [hji, hjL]; exact hy⟩
+
+end WFA
+
+namespace WFA
+variable {t : T}
+
+
+theorem remove_of_not_has (h : WFA t) {id : Nat} (hn : ¬ t.Has id) : t.remove id = (t, .error .notFound) := by
+  obtain ⟨h1, h2, _⟩ := h.not_has hn
+  simp [T.remove, findIdx_findItem.mpr h1, h2]
+
+theorem remove_of_mem (h : WFA t) {x : Item} (hx : t.Mem x) :
+    (t.remove x.id).2 = .ok () ∧ WFA (t.remove x.id).1 ∧
+      ∀ y, (t.remove x.id).1.Mem y ↔ t.Mem y ∧ y.id ≠ x.id := by
+  unfold T.remove
+  rcases h.locate hx with h1 | ⟨h1, l, hl, h2, h3, h4⟩
+  · cases hk : findIdx (t.P t.L) x.id with
+    | none => rw [findIdx_findItem.mp hk] at h1; simp at h1
+    | some k =>
+      simp only
+      obtain ⟨he, hm⟩ := h.removeFromLast_core hk
+      have hf := he.finish
+      refine ⟨trivial, ?_, ?_⟩
+      · exact hf.1
+      · intro y; rw [← hm y]; exact hf.2 y
+  · rw [findIdx_findItem.mpr h1]
+    simp only [h2]
+    cases hk : findIdx (t.P l) x.id with
+    | none => rw [findIdx_findItem.mp hk] at h3; simp at h3
+    | some k =>
+      have hne : t.P t.L ≠ [] := h.last_ne (by omega)
+      cases htl : (t.P t.L).getLast? with
+      | none => simp at htl; exact absurd htl hne
+      | some tl =>
+        obtain ⟨he, hm⟩ := h.removeItem_core hl hk htl h1
+        have hf := he.finish
+        have heq : (t.removeItem x.id l).delLoc x.id =
+            (if ((((((t.setP l (swapRemove (t.P l) k)).setP t.L (t.P t.L).dropLast).setP l
+                (swapRemove (t.P l) k ++ [tl])).setLoc tl.id l).delLoc x.id).P
+                  (((((t.setP l (swapRemove (t.P l) k)).setP t.L (t.P t.L).dropLast).setP l
+                (swapRemove (t.P l) k ++ [tl])).setLoc tl.id l).delLoc x.id).L).length > 0
+             then ((((t.setP l (swapRemove (t.P l) k)).setP t.L (t.P t.L).dropLast).setP l
+                (swapRemove (t.P l) k ++ [tl])).setLoc tl.id l).delLoc x.id
+             else (((((t.setP l (swapRemove (t.P l) k)).setP t.L (t.P t.L).dropLast).setP l
+                (swapRemove (t.P l) k ++ [tl])).setLoc tl.id l).delLoc x.id).loadLastFromPrev) := by
+          unfold T.removeItem
+          simp only [hk, htl]
+          split
+          · rename_i hc
+            rw [if_pos (by simpa [T.delLoc] using hc)]
+          · rename_i hc
+            rw [if_neg (by simpa [T.delLoc] using hc), T.loadLast_delLoc_comm]
+        refine ⟨trivial, ?_, ?_⟩
+        · rw [heq]; exact hf.1
+        · intro y; rw [heq, ← hm y]; exact hf.2 y
+
+end WFA
+
+namespace WFA
+variable {t : T}
+
+
+/-- the location node of the removed id survives `removeItem` (it is deleted afterwards by `Remove`) -/
+theorem removeItem_loc_id (h : WFA t) {id i : Nat} (hl : t.loc id = some i)
+    (hnl : findItem (t.P t.L) id = none) : (t.removeItem id i).loc id = some i := by
+  obtain ⟨hlt, y, hy, hyid⟩ := h.loc_sound id i hl
+  unfold T.removeItem
+  cases hk : findIdx (t.P i) id with
+  | none => exact absurd hyid (findIdx_none.mp hk y hy)
+  | some k =>
+    have hne : t.P t.L ≠ [] := h.last_ne (by omega)
+    cases htl : (t.P t.L).getLast? with
+    | none => simp at htl; exact absurd htl hne
+    | some tl =>
+      simp only
+      obtain ⟨hwe, hm⟩ := h.removeItem_core hlt hk htl hnl
+      have h5 : ((((t.setP i (swapRemove (t.P i) k)).setP t.L (t.P t.L).dropLast).setP i
+          (swapRemove (t.P i) k ++ [tl])).setLoc tl.id i).loc id = some i := by
+        simp only [T.setLoc, T.setP, upd_apply]
+        split
+        · rfl
+        · exact hl
+      split
+      · exact h5
+      · unfold T.loadLastFromPrev
+        split
+        · exact h5
+        · simp only
+          have : findItem (((((t.setP i (swapRemove (t.P i) k)).setP t.L (t.P t.L).dropLast).setP i
+              (swapRemove (t.P i) k ++ [tl])).setLoc tl.id i).P
+              (((((t.setP i (swapRemove (t.P i) k)).setP t.L (t.P t.L).dropLast).setP i
+              (swapRemove (t.P i) k ++ [tl])).setLoc tl.id i).L - 1)) id = none := by
+            rw [findItem_none]
+            intro z hz
+            exact ((hm z).mp ⟨t.L - 1, by simp [T.delLoc, T.setLoc, T.setP], hz⟩).2
+          rw [this]
+          exact h5
+
+end WFA
+
+/-- the `for requiredCount != 0` loop of `GetRandomItems` on the table -/
+def T.randLoop (t : T) : Nat → Nat → Nat → Nat → List Item → Res (List Item)
+  | 0, _, _, _, _ => .error .hang
+  | fuel + 1, req, pi, ii, acc =>
+    if req = 0 then .ok acc
+    else if pi > t.L then .error .overflow
+    else
+      let items := t.P pi
+      if ii + req > items.length then
+        match itemRange items ii items.length with
+        | .error e => .error e
+        | .ok res => t.randLoop fuel (req - (items.length - ii)) (if pi = t.L then 0 else pi + 1) 0 (acc ++ res)
+      else
+        match itemRange items ii (ii + req) with
+        | .error e => .error e
+        | .ok res => .ok (acc ++ res)
+
+/-- `GetRandomItems` on the table -/
+def T.getRandomItems (t : T) (e : Nat) : Res (List Item) :=
+  if (t.P t.L).length = 0 then .error .empty
+  else
+    let total := t.L * t.size + (t.P t.L).length
+    let req := if total < t.size then total else t.size
+    if t.size = 0 then .error .panic
+    else t.randLoop ((req + 1) * (t.L + 2) + 1) req (e / t.size) (e % t.size) []
+
+/-- partitions `a … a+b-1`, concatenated -/
+def T.seg (t : T) (a b : Nat) : List Item := (List.range' a b).flatMap t.P
+
+theorem T.seg_succ (t : T) (a b : Nat) : t.seg a (b + 1) = t.P a ++ t.seg (a + 1) b := by
+  simp [T.seg, List.range'_succ]
+
+theorem T.seg_append (t : T) (a b c : Nat) : t.seg a b ++ t.seg (a + b) c = t.seg a (b + c) := by
+  simp only [T.seg, ← List.flatMap_append, List.range'_append_1]
+
+theorem T.items_eq_seg (t : T) : t.items = t.seg 0 (t.L + 1) := by
+  simp [T.items, T.seg, List.range_eq_range']
+
+namespace WFA
+variable {t : T}
+
+theorem length_seg0 (h : WFA t) (n : Nat) (hn : n ≤ t.L) : (t.seg 0 n).length = n * t.size := by
+  have := length_range_flatMap t.P t.size n (fun i hi => h.full i (by omega))
+  simpa [T.seg, List.range_eq_range'] using this
+
+/-- the item list, cut at the start of partition `pi` -/
+theorem items_split (h : WFA t) (pi : Nat) (hpi : pi ≤ t.L) :
+    t.items = t.seg 0 pi ++ (t.P pi ++ t.seg (pi + 1) (t.L - pi)) := by
+  rw [T.items_eq_seg, ← T.seg_succ]
+  have := t.seg_append 0 pi (t.L - pi + 1)
+  simp only [Nat.zero_add] at this
+  rw [this]
+  congr 1
+  omega
+
+theorem drop_items2 (h : WFA t) (pi ii : Nat) (hpi : pi ≤ t.L) (hii : ii ≤ (t.P pi).length) :
+    (t.items ++ t.items).drop (pi * t.size + ii) =
+      (t.P pi).drop ii ++ (t.seg (pi + 1) (t.L - pi) ++ t.items) := by
+  conv => lhs; arg 2; arg 1; rw [h.items_split pi hpi]
+  rw [List.append_assoc, ← h.length_seg0 pi hpi, List.drop_length_add_append, List.append_assoc,
+    List.drop_append_of_le_length hii]
+
+theorem parts_nonempty (h : WFA t) (hne : t.items ≠ []) (i : Nat) (hi : i ≤ t.L) : 0 < (t.P i).length := by
+  rcases Nat.lt_or_ge i t.L with h1 | h1
+  · rw [h.full i h1]; exact h.size_pos
+  · have : i = t.L := by omega
+    subst this
+    rcases Nat.eq_zero_or_pos t.L with h0 | h0
+    · cases hp : t.P t.L with
+      | nil =>
+        exfalso; apply hne
+        simp [T.items, h0]
+        rw [h0] at hp; exact hp
+      | cons x r => simp
+    · have := h.last_ne h0
+      cases hp : t.P t.L with
+      | nil => exact absurd hp this
+      | cons x r => simp
+
+theorem randLoop_spec (h : WFA t) (hne : t.items ≠ []) :
+    ∀ (fuel req pi ii : Nat) (acc : List Item), req < fuel → req ≤ t.items.length → pi ≤ t.L →
+      ii < (t.P pi).length →
+      t.randLoop fuel req pi ii acc = .ok (acc ++ ((t.items ++ t.items).drop (pi * t.size + ii)).take req) := by
+  intro fuel
+  induction fuel with
+  | zero => intro req pi ii acc hf; omega
+  | succ fuel ih =>
+    intro req pi ii acc hf hreq hpi hii
+    unfold T.randLoop
+    by_cases h0 : req = 0
+    · simp [h0]
+    · simp only [h0, if_false, show ¬ pi > t.L by omega]
+      rw [h.drop_items2 pi ii hpi (by omega)]
+      by_cases hc : ii + req > (t.P pi).length
+      · simp only [hc, if_true, itemRange]
+        simp only [show ¬(ii > (t.P pi).length ∨ (t.P pi).length > (t.P pi).length) by omega, if_false]
+        have hres : List.take ((t.P pi).length - ii) (List.drop ii (t.P pi)) = List.drop ii (t.P pi) :=
+          List.take_of_length_le (by simp)
+        rw [hres]
+        have hpi' : (if pi = t.L then 0 else pi + 1) ≤ t.L := by split <;> omega
+        rw [ih _ _ 0 _ (by omega) (by omega) hpi' (h.parts_nonempty hne _ hpi')]
+        congr 1
+        rw [List.append_assoc]
+        congr 1
+        rw [List.take_append, List.take_of_length_le (l := List.drop ii (t.P pi)) (i := req) (by simp; omega)]
+        congr 1
+        simp only [List.length_drop, Nat.add_zero]
+        by_cases hpl : pi = t.L
+        · simp only [hpl, if_true, Nat.sub_self, Nat.zero_mul, List.drop_zero]
+          have : t.seg (t.L + 1) 0 = [] := by simp [T.seg]
+          rw [this, List.nil_append, List.take_append_of_le_length (by omega)]
+        · simp only [hpl, if_false]
+          have := h.drop_items2 (pi + 1) 0 (by omega) (by omega)
+          simp only [Nat.add_zero, List.drop_zero] at this
+          rw [this, ← List.append_assoc, ← T.seg_succ]
+          congr 3
+          omega
+      · simp only [hc, if_false, itemRange]
+        rw [List.take_append_of_le_length (by simp; omega)]
+        have h1 : ¬ (ii > ii + req) := by omega
+        simp only [h1, or_false, if_false, show ii + req - ii = req by omega]
+
+end WFA
+/-- a window of length `r ≤ |A|` of the doubled list, starting inside the first copy: no duplicates, only
+members, exactly `r` elements -/
+theorem window_props {α : Type} (A : List α) (hn : A.Nodup) (e r : Nat) (he : e < A.length) (hr : r ≤ A.length) :
+    (((A ++ A).drop e).take r).Nodup ∧ (∀ x ∈ ((A ++ A).drop e).take r, x ∈ A) ∧
+      (((A ++ A).drop e).take r).length = r := by
+  refine ⟨?_, ?_, ?_⟩
+  · rw [List.drop_append_of_le_length (by omega), List.take_append]
+    have hsub : (List.take r (List.drop e A) ++ List.take (r - (List.drop e A).length) A).Sublist
+        (List.drop e A ++ List.take e A) := by
+      apply List.Sublist.append (List.take_sublist _ _)
+      apply List.take_sublist_take_left
+      simp only [List.length_drop]; omega
+    apply List.Nodup.sublist hsub
+    have : (List.drop e A ++ List.take e A).Perm A := by
+      have := List.perm_append_comm (l₁ := List.drop e A) (l₂ := List.take e A)
+      rw [List.take_append_drop] at this
+      exact this
+    exact this.nodup_iff.mpr hn
+  · intro x hx
+    have := List.mem_of_mem_drop (List.mem_of_mem_take hx)
+    simpa using this
+  · simp only [List.length_take, List.length_drop, List.length_append]; omega
+
+namespace WFA
+variable {t : T}
+
+theorem items_nil_iff (h : WFA t) : t.items = [] ↔ (t.P t.L).length = 0 := by
+  constructor
+  · intro he
+    have := h.length_items
+    rw [he] at this; simp at this; omega
+  · intro h0
+    have := h.sizeOf_eq
+    simp only [T.sizeOf, h0, if_true] at this
+    exact List.eq_nil_of_length_eq_zero this.symm
+
+theorem getRandomItems_empty (h : WFA t) (e : Nat) (he : t.items = []) :
+    t.getRandomItems e = .error .empty := by
+  simp [T.getRandomItems, h.items_nil_iff.mp he]
+
+theorem getRandomItems_spec (h : WFA t) (e : Nat) (hne : t.items ≠ []) (he : e < t.items.length) :
+    t.getRandomItems e = .ok (((t.items ++ t.items).drop e).take (min t.size t.items.length)) := by
+  have hlen := h.length_items
+  have hsz := h.size_pos
+  have hl0 : (t.P t.L).length ≠ 0 := fun h0 => hne (h.items_nil_iff.mpr h0)
+  unfold T.getRandomItems
+  simp only [hl0, if_false, show t.size ≠ 0 by omega, ← hlen]
+  have hreq : (if t.items.length < t.size then t.items.length else t.size) = min t.size t.items.length := by
+    split <;> omega
+  rw [hreq]
+  have hmul : e / t.size * t.size ≤ e := Nat.div_mul_le_self e t.size
+  have hdm : e / t.size * t.size + e % t.size = e := by
+    have := Nat.div_add_mod e t.size; rw [Nat.mul_comm] at this; exact this
+  have hmod : e % t.size < t.size := Nat.mod_lt _ (by omega)
+  have hlast := h.last_le
+  have hpi : e / t.size ≤ t.L := by
+    have : e / t.size < t.L + 1 := by
+      rw [Nat.div_lt_iff_lt_mul (by omega)]
+      rw [hlen] at he
+      have : (t.L + 1) * t.size = t.L * t.size + t.size := by rw [Nat.add_mul]; simp
+      omega
+    omega
+  have hii : e % t.size < (t.P (e / t.size)).length := by
+    rcases Nat.lt_or_ge (e / t.size) t.L with h1 | h1
+    · rw [h.full _ h1]; exact hmod
+    · have h2 : e / t.size = t.L := by omega
+      rw [h2] at hdm ⊢
+      rw [hlen] at he
+      omega
+  rw [h.randLoop_spec hne _ _ _ _ [] ?_ (by omega) hpi hii, hdm]
+  · simp
+  · have : min t.size t.items.length + 1 ≤ (min t.size t.items.length + 1) * (t.L + 2) :=
+      Nat.le_mul_of_pos_right _ (by omega)
+    omega
+
+/-- **random sampling**: distinct members, `min(size, card)` of them -/
+theorem getRandomItems_props (h : WFA t) (e : Nat) (hne : t.items ≠ []) (he : e < t.items.length) :
+    ∃ xs, t.getRandomItems e = .ok xs ∧ (xs.map (·.id)).Nodup ∧ (∀ x ∈ xs, t.Mem x) ∧
+      xs.length = min t.size t.items.length := by
+  refine ⟨_, h.getRandomItems_spec e hne he, ?_, ?_, ?_⟩
+  · have hw := window_props (t.items.map (·.id)) h.nodup_items e (min t.size t.items.length)
+      (by simpa using he) (by simp; omega)
+    have : (((t.items ++ t.items).drop e).take (min t.size t.items.length)).map (·.id) =
+        (((t.items.map (·.id)) ++ (t.items.map (·.id))).drop e).take (min t.size t.items.length) := by
+      simp [List.map_take, List.map_drop]
+    rw [this]
+    exact hw.1
+  · intro x hx
+    rw [← T.mem_items]
+    have := List.mem_of_mem_drop (List.mem_of_mem_take hx)
+    simpa using this
+  · simp only [List.length_take, List.length_drop, List.length_append]; omega
+
+end WFA
 end ZChain.Partitions
